@@ -14,6 +14,7 @@
 From Coq Require Import List ZArith NArith Bool.
 From Astisub Require Import Kit.Base Kit.Str Kit.Scan Kit.Html Model.Dur Model.Srt.
 From Astisub Require Import Proofs.SrtEscProofs Proofs.SrtProofs Proofs.SrtReadProofs Proofs.EolProofs Proofs.SrtIOProofs.
+From Astisub Require Import Proofs.SrtSimple Proofs.SrtSimpleRaw.
 Import ListNotations.
 
 (* the document written for a representable cue list is read back as that list *)
@@ -74,6 +75,56 @@ Print Assumptions C01_eol_last_line.
 Theorem C01_reader_total : forall ls e p, read_srt_lines ls e <> Panic p.
 Proof. exact read_srt_lines_no_panic. Qed.
 Print Assumptions C01_reader_total.
+
+(* ---- the hypotheses stay inside the faithful domain of the markup tokenizer model ----
+   The SubRip model reads text through a model of the golang.org/x/net/html tokenizer that agrees with the real tokenizer
+   only on Kit.Html.html_simple (no raw-text element script/style/title/..., no comment, no '&' and no CR inside an
+   attribute value, no NUL byte).  The theorems above are statements about the library only for inputs whose tokenized
+   lines lie in that domain; the four theorems below show that their hypotheses guarantee it, so that none of them
+   holds "of the model only". *)
+
+(* the bytes the writer emits for a representable line: the colour has no double quote, '&', CR, NUL (col_ok), the text
+   no NUL, '<' is escaped, the only tags are font/b/i/u *)
+Theorem C01_written_line_in_faithful_domain : forall l : list srun, repr_line l -> html_simple (line_str l) = true.
+Proof. exact repr_line_simple. Qed.
+Print Assumptions C01_written_line_in_faithful_domain.
+
+(* every line of the document written for representable cues (index, timing and text lines) *)
+Theorem C01_written_document_in_faithful_domain : forall (l : list sitem) data, Forall repr_item l -> write_srt l = Ok data ->
+  Forall (fun x => html_simple x = true) (lines data).
+Proof. exact written_doc_simple. Qed.
+Print Assumptions C01_written_document_in_faithful_domain.
+
+(* raw body lines are arbitrary strings: there the domain predicate itself is the hypothesis (last conjunct of
+   body_line_ok) *)
+Theorem C01_rendered_raw_in_faithful_domain : forall q : rcue, rcue_ok q -> Forall (fun x => html_simple x = true) (rc_body q).
+Proof. exact rcue_ok_simple. Qed.
+Print Assumptions C01_rendered_raw_in_faithful_domain.
+
+(* every line of a rendering that reaches the tokenizer (index and text lines; the timing line is recognised by its
+   arrow and never tokenized; the byte-order mark is removed before) *)
+Theorem C01_rendering_in_faithful_domain : forall (cs : list (rend * rcue)) (eof : nat),
+  Forall (fun p => rend_ok (fst p) /\ rcue_ok (snd p)) cs ->
+  Forall (fun x => contains arrow x = true \/ html_simple x = true) (all_cue_lines cs ++ repeat [] eof).
+Proof. exact rendered_raw_simple. Qed.
+Print Assumptions C01_rendering_in_faithful_domain.
+
+(* the strengthened conditions are needed (audit witnesses, both replayed on the library).
+   Colour [&amp;]: all the other conditions hold and the model reads the written line back unchanged, but the line is
+   outside the faithful domain: the library writes the colour unescaped and reads it back as [&]. *)
+Theorem C01_needs_colour_without_amp :
+  col_okb amp_colour = false /\ repr_itemb amp_item = false /\
+  html_simple (line_str amp_line) = false /\
+  parse_text_srt (line_str amp_line) sa0 = (amp_line, sa0).
+Proof. exact amp_colour_witness. Qed.
+(* Raw line [<script>x<b>y]: trimmed, valid UTF-8, no arrow; the model reads the runs x and bold y, the library the single
+   run [x<b>y] because the real tokenizer treats script as a raw-text element. *)
+Theorem C01_needs_raw_line_simple :
+  html_simple script_line = false /\ body_line_okb script_line = false /\ rcue_okb script_cue = false /\
+  (str_eqb (trim_space script_line) script_line && utf8_valid script_line && negb (contains arrow script_line) = true) /\
+  forallb line_keepsb (fst (thread (rc_body script_cue) sa0)) = true /\
+  parse_text_srt script_line sa0 = ([mkSrun [120] None 0; mkSrun [121] (Some (mkSa true false false None)) 0], mkSa true false false None).
+Proof. exact raw_text_witness. Qed.
 
 (* non-vacuity: a four-cue list with styled multi-run lines, '&', '<', nbsp, a digits-only text line, a cue
    without lines and times off the millisecond grid satisfies the hypotheses of C01_write_read *)
